@@ -312,8 +312,17 @@ def make_machine(rec, tier):
 
         def guarded(self, fn):
             try:
-                fn()
-                self.w.check_invariant()
+                try:
+                    fn()
+                    self.w.check_invariant()
+                except Violation:
+                    raise
+                except Exception as e:
+                    # an exception that comes out of library code while the harness builds / fingerprints documented objects
+                    from vlib.runner import raised_in_library, library_exception_as_violation
+                    if e.__class__.__module__.startswith("hypothesis") or not raised_in_library(e):
+                        raise
+                    raise library_exception_as_violation(e) from None
             except Violation as v:
                 type(self).failure = (jsonable(self.w.trace), v, {"steps": self.nsteps})
                 raise
